@@ -29,7 +29,7 @@ type recTable struct {
 	hits    int
 	samples []ttSample
 	// cancelled, if set, tells whether the search's context is already cancelled (C12)
-	cancelled func() bool
+	cancelled        func() bool
 	postCancelWrites int
 }
 
@@ -366,10 +366,10 @@ func runC11(c *fw.Ctx, cs fw.Case) {
 
 func init() {
 	fw.Register(&fw.Monitor{
-		ID:        "C11",
-		Level:     "exploration",
-		Technique: "runtime differential monitor: every search with a (recording) transposition table compared with the same search without table; sampled exact entries re-derived by table-less search on a fork taken at write time",
-		Rule: "position-determined configurations (Material, hash, BERNSTEIN evaluators; full, plausible-move, no-under-promotion exploration; static and captures-quiescence leaves) on repetition-free roots with clock < 80, depth <= 6, table variants 32 B (1 slot) .. 1 MiB and the engine's min-depth wrapper; search sequences on one table: iterative deepening, same search 3x, successive positions of a game, narrowed windows then full window, sibling-first; compared: root score, non-empty PV whose first move is a best move, sampled ExactBound writes vs true value; distinct = distinct (configuration, depth, table, sequence, history)",
+		ID:          "C11",
+		Level:       "exploration",
+		Technique:   "runtime differential monitor: every search with a (recording) transposition table compared with the same search without table; sampled exact entries re-derived by table-less search on a fork taken at write time",
+		Rule:        "position-determined configurations (Material, hash, BERNSTEIN evaluators; full, plausible-move, no-under-promotion exploration; static and captures-quiescence leaves) on repetition-free roots with clock < 80, depth <= 6, table variants 32 B (1 slot) .. 1 MiB and the engine's min-depth wrapper; search sequences on one table: iterative deepening, same search 3x, successive positions of a game, narrowed windows then full window, sibling-first; compared: root score, non-empty PV whose first move is a best move, sampled ExactBound writes vs true value; distinct = distinct (configuration, depth, table, sequence, history)",
 		Assumptions: []string{"table-less alpha-beta is the reference here; it is itself checked against the independent minimax by C03", "scope as the property states: position-determined evaluation, no repetition / fifty-move draw reachable inside the tree (roots certified repetition-free by the rules oracle, depth <= 6, clock + depth < 100)"},
 		Setup:       validateOracle,
 		Timeout:     minutes(15, 120),
